@@ -5,14 +5,16 @@ from vx.gen import Unit, Fn, TypeItem, Loop, Rw
 from . import common
 
 SPLICE_SPEC = r'''
+pub open spec fn has_op(s: Seq<char>) -> bool { s.contains('|') || s.contains('&') || s.contains('<') || s.contains('>') }
 pub open spec fn unq(t: Token) -> bool { t.0@.len() == 0 }
 pub open spec fn tv(t: Token) -> (Seq<char>, Seq<char>) { tok_view(t) }
 pub open spec fn tsv(v: Seq<Token>) -> Seq<(Seq<char>, Seq<char>)> { toks_view(v) }
 pub open spec fn strs(v: Seq<String>) -> Seq<Seq<char>> { v.map_values(|s: String| s@) }
 
 // a produced word becomes a token; a word with a blank stays ONE argument (double-quote tag)
-pub open spec fn mk_tok(s: Seq<char>) -> (Seq<char>, Seq<char>) { (if s.contains(' ') { "\""@ } else { ""@ }, s) }
-pub open spec fn mk_toks(items: Seq<Seq<char>>) -> Seq<(Seq<char>, Seq<char>)> { items.map_values(|s: Seq<char>| mk_tok(s)) }
+// (expand_glob, g = true: a file name that contains an operator character is data as well)
+pub open spec fn mk_tok(s: Seq<char>, g: bool) -> (Seq<char>, Seq<char>) { (if s.contains(' ') || (g && has_op(s)) { "\""@ } else { ""@ }, s) }
+pub open spec fn mk_toks(items: Seq<Seq<char>>, g: bool) -> Seq<(Seq<char>, Seq<char>)> { items.map_values(|s: Seq<char>| mk_tok(s, g)) }
 
 pub type BV = Seq<(int, Seq<Seq<char>>)>;
 pub open spec fn bview(b: Seq<(usize, Vec<String>)>) -> BV { b.map_values(|e: (usize, Vec<String>)| (e.0 as int, strs(e.1@))) }
@@ -21,15 +23,15 @@ pub open spec fn buff_ok(b: BV, n: int) -> bool {
     forall|m: int| 0 <= m < b.len() ==> 0 <= (#[trigger] b[m]).0 < n && (m + 1 < b.len() ==> b[m].0 < b[m + 1].0)
 }
 // the token list from position lo(b,m) on, with entries m.. expanded in place
-pub open spec fn rest(old: Seq<(Seq<char>, Seq<char>)>, b: BV, m: int) -> Seq<(Seq<char>, Seq<char>)>
+pub open spec fn rest(old: Seq<(Seq<char>, Seq<char>)>, b: BV, m: int, g: bool) -> Seq<(Seq<char>, Seq<char>)>
     decreases b.len() - m
 {
     if m < 0 || m >= b.len() { Seq::empty() }
-    else { mk_toks(b[m].1) + old.subrange(b[m].0 + 1, lo(b, m + 1, old.len() as int)) + rest(old, b, m + 1) }
+    else { mk_toks(b[m].1, g) + old.subrange(b[m].0 + 1, lo(b, m + 1, old.len() as int)) + rest(old, b, m + 1, g) }
 }
 // THE SPECIFIED RESULT: untouched prefix, then every expanded word list in place of its token, order kept
-pub open spec fn spliced(old: Seq<(Seq<char>, Seq<char>)>, b: BV) -> Seq<(Seq<char>, Seq<char>)> {
-    old.take(lo(b, 0, old.len() as int)) + rest(old, b, 0)
+pub open spec fn spliced(old: Seq<(Seq<char>, Seq<char>)>, b: BV, g: bool) -> Seq<(Seq<char>, Seq<char>)> {
+    old.take(lo(b, 0, old.len() as int)) + rest(old, b, 0, g)
 }
 
 pub proof fn lemma_tsv_ops(s: Seq<Token>)
@@ -76,17 +78,17 @@ pub proof fn lemma_found_push(b: Seq<(usize, Vec<String>)>)
     }
 }
 
-// removing token i (an entry about to be expanded) from  old[..lo_m] ++ rest(m)
-pub proof fn lemma_splice_remove(old: Seq<(Seq<char>, Seq<char>)>, b: BV, m: int, cur: Seq<(Seq<char>, Seq<char>)>)
-    requires buff_ok(b, old.len() as int), 1 <= m <= b.len(), cur == old.take(lo(b, m, old.len() as int)) + rest(old, b, m),
+// removing token i (an entry about to be expanded) from  old[..lo_m] ++ rest(m, g)
+pub proof fn lemma_splice_remove(old: Seq<(Seq<char>, Seq<char>)>, b: BV, m: int, cur: Seq<(Seq<char>, Seq<char>)>, g: bool)
+    requires buff_ok(b, old.len() as int), 1 <= m <= b.len(), cur == old.take(lo(b, m, old.len() as int)) + rest(old, b, m, g),
     ensures
         b[m - 1].0 < cur.len(),
-        cur.remove(b[m - 1].0) == old.take(b[m - 1].0) + mk_toks(b[m - 1].1).take(0) + (old.subrange(b[m - 1].0 + 1, lo(b, m, old.len() as int)) + rest(old, b, m)),
+        cur.remove(b[m - 1].0) == old.take(b[m - 1].0) + mk_toks(b[m - 1].1, g).take(0) + (old.subrange(b[m - 1].0 + 1, lo(b, m, old.len() as int)) + rest(old, b, m, g)),
 {
     let i = b[m - 1].0;
     let l = lo(b, m, old.len() as int);
     assert(i < l <= old.len());
-    assert(cur.remove(i) =~= old.take(i) + mk_toks(b[m - 1].1).take(0) + (old.subrange(i + 1, l) + rest(old, b, m)));
+    assert(cur.remove(i) =~= old.take(i) + mk_toks(b[m - 1].1, g).take(0) + (old.subrange(i + 1, l) + rest(old, b, m, g)));
 }
 
 // inserting the j-th produced word
@@ -99,23 +101,23 @@ pub proof fn lemma_splice_insert(a: Seq<(Seq<char>, Seq<char>)>, mm: Seq<(Seq<ch
 }
 
 // all words of entry m-1 inserted: the invariant for m-1
-pub proof fn lemma_splice_done(old: Seq<(Seq<char>, Seq<char>)>, b: BV, m: int, cur: Seq<(Seq<char>, Seq<char>)>)
+pub proof fn lemma_splice_done(old: Seq<(Seq<char>, Seq<char>)>, b: BV, m: int, cur: Seq<(Seq<char>, Seq<char>)>, g: bool)
     requires buff_ok(b, old.len() as int), 1 <= m <= b.len(),
-        cur == old.take(b[m - 1].0) + mk_toks(b[m - 1].1).take(mk_toks(b[m - 1].1).len() as int)
-               + (old.subrange(b[m - 1].0 + 1, lo(b, m, old.len() as int)) + rest(old, b, m)),
-    ensures cur == old.take(lo(b, m - 1, old.len() as int)) + rest(old, b, m - 1),
+        cur == old.take(b[m - 1].0) + mk_toks(b[m - 1].1, g).take(mk_toks(b[m - 1].1, g).len() as int)
+               + (old.subrange(b[m - 1].0 + 1, lo(b, m, old.len() as int)) + rest(old, b, m, g)),
+    ensures cur == old.take(lo(b, m - 1, old.len() as int)) + rest(old, b, m - 1, g),
 {
-    let mm = mk_toks(b[m - 1].1);
+    let mm = mk_toks(b[m - 1].1, g);
     assert(mm.take(mm.len() as int) =~= mm);
-    assert(cur =~= old.take(lo(b, m - 1, old.len() as int)) + rest(old, b, m - 1));
+    assert(cur =~= old.take(lo(b, m - 1, old.len() as int)) + rest(old, b, m - 1, g));
 }
 
 // no entry at all: nothing changes
-pub proof fn lemma_spliced_empty(old: Seq<(Seq<char>, Seq<char>)>, b: BV)
+pub proof fn lemma_spliced_empty(old: Seq<(Seq<char>, Seq<char>)>, b: BV, g: bool)
     requires b.len() == 0,
-    ensures spliced(old, b) == old,
+    ensures spliced(old, b, g) == old,
 {
-    assert(spliced(old, b) =~= old);
+    assert(spliced(old, b, g) =~= old);
 }
 '''
 
@@ -188,12 +190,18 @@ pub proof fn lemma_glob_step(words: Seq<String>, v: Seq<Result<VxPath, String>>,
 }
 
 // ---- numeric range ----
-pub struct VxRangeCaps { pub c1: String, pub c2: String, pub c4: Option<String> }
+pub struct VxRangeCaps { pub c1: String, pub c2: String, pub c4: Option<String>, pub head: String, pub tail: String }
 pub uninterp spec fn spec_range_match(t: Seq<char>) -> bool;
+// the text before / after the first `{m..n[..s]}` group of the word (Match::start / Match::end of capture 0)
+pub uninterp spec fn spec_range_head(t: Seq<char>) -> Seq<char>;
+pub uninterp spec fn spec_range_tail(t: Seq<char>) -> Seq<char>;
 #[verifier::external_body]
 pub fn vx_range_is_match(t: &str) -> (r: bool) ensures r == spec_range_match(t@) { unimplemented!() }
 #[verifier::external_body]
-pub fn vx_range_captures(t: &str) -> (r: Option<VxRangeCaps>) ensures r.is_some() == spec_range_match(t@) { unimplemented!() }
+pub fn vx_range_captures(t: &str) -> (r: Option<VxRangeCaps>)
+    ensures r.is_some() == spec_range_match(t@),
+        r.is_some() ==> r.unwrap().head@ == spec_range_head(t@) && r.unwrap().tail@ == spec_range_tail(t@)
+{ unimplemented!() }
 pub struct VxParseErr { pub e: i32 }
 pub uninterp spec fn spec_parse_i32(t: Seq<char>) -> Option<int>;
 #[verifier::external_body]
@@ -210,6 +218,7 @@ pub open spec fn arith_at(a: int, b: int, d: int, k: int) -> int { if a <= b { a
 //@FN brace_getitem
 //@FN brace_getgroup
 //@FN expand_brace
+//@FN has_operator_char
 //@FN expand_glob
 //@FN expand_brace_range
 ''' + common.TAIL
@@ -217,7 +226,7 @@ pub open spec fn arith_at(a: int, b: int, d: int, k: int) -> int { if a <= b { a
 S = 'src/shell.rs'
 
 
-def splice_loops(first, outer, inner, buffname='buff', items='items'):
+def splice_loops(first, outer, inner, buffname='buff', items='items', g='false'):
     """invariants of the shared splice-back code: `for (i, items) in buff.iter().rev() { remove; for (j, token) in items.iter().enumerate() { insert } }`"""
     b = 'bview(%s@)' % buffname
     old = 'tsv(old(tokens)@)'
@@ -225,40 +234,40 @@ def splice_loops(first, outer, inner, buffname='buff', items='items'):
     _r = {
         outer: Loop(invariant=[
             ('C12+C13.inv.splice.buff_ok', 'buff_ok(%s, %s)' % (b, n)),
-            ('C12+C13.inv.splice.outer', 'tsv(tokens@) == %s.take(lo(%s, __i%d as int, %s)) + rest(%s, %s, __i%d as int)' % (old, b, outer, n, old, b, outer)),
+            ('C12+C13.inv.splice.outer', 'tsv(tokens@) == %s.take(lo(%s, __i%d as int, %s)) + rest(%s, %s, __i%d as int, GFLAG)' % (old, b, outer, n, old, b, outer)),
         ]),
         inner: Loop(invariant=[
             ('C12+C13.inv.splice.buff_ok2', 'buff_ok(%s, %s) && 0 <= __i%d < %s.len() && *i == %s[__i%d as int].0 && strs(ITEMS@) == %s[__i%d as int].1'
              % (b, n, outer, b, b, outer, b, outer)),
             ('C12+C13.inv.splice.inner',
-             'tsv(tokens@) == %s.take(*i as int) + mk_toks(strs(ITEMS@)).take(__i%d as int) + (%s.subrange(*i + 1, lo(%s, __i%d + 1, %s)) + rest(%s, %s, __i%d + 1))'
+             'tsv(tokens@) == %s.take(*i as int) + mk_toks(strs(ITEMS@), GFLAG).take(__i%d as int) + (%s.subrange(*i + 1, lo(%s, __i%d + 1, %s)) + rest(%s, %s, __i%d + 1, GFLAG))'
              % (old, inner, old, b, outer, n, old, b, outer)),
         ]),
     }
     for lp in _r.values():
-        lp.invariant = [(l, e.replace('ITEMS', items)) for l, e in lp.invariant]
+        lp.invariant = [(l, e.replace('ITEMS', items).replace('GFLAG', g)) for l, e in lp.invariant]
     return _r
 
 
-def splice_hints(outer, inner, buffname='buff', items='items'):
+def splice_hints(outer, inner, buffname='buff', items='items', g='false'):
     b = 'bview(%s@)' % buffname
     old = 'tsv(old(tokens)@)'
     _h = {
         'loop-%d-body-entry' % outer:
-            'lemma_tsv_ops(tokens@); lemma_splice_remove(%s, %s, __i%d as int, tsv(tokens@)); '
+            'lemma_tsv_ops(tokens@); lemma_splice_remove(%s, %s, __i%d as int, tsv(tokens@), GFLAG); '
             'assert(%s[__i%d - 1] == ((%s@[__i%d - 1]).0 as int, strs((%s@[__i%d - 1]).1@)));' % (old, b, outer, b, outer, buffname, outer, buffname, outer),
         'loop-%d-body-entry' % inner:
             'lemma_tsv_ops(tokens@); lemma_tsv_ops(old(tokens)@); assert(tsv(old(tokens)@).take(*i as int).len() == *i); '
-            'lemma_splice_insert(%s.take(*i as int), mk_toks(strs(ITEMS@)), __i%d as int, '
-            '%s.subrange(*i + 1, lo(%s, __i%d + 1, %s.len() as int)) + rest(%s, %s, __i%d + 1), tsv(tokens@)); '
-            'assert(mk_toks(strs(ITEMS@))[__i%d as int] == mk_tok(ITEMS@[__i%d as int]@)); '
+            'lemma_splice_insert(%s.take(*i as int), mk_toks(strs(ITEMS@), GFLAG), __i%d as int, '
+            '%s.subrange(*i + 1, lo(%s, __i%d + 1, %s.len() as int)) + rest(%s, %s, __i%d + 1, GFLAG), tsv(tokens@)); '
+            'assert(mk_toks(strs(ITEMS@), GFLAG)[__i%d as int] == mk_tok(ITEMS@[__i%d as int]@, GFLAG)); '
             'assert(%s.take(*i as int).len() + __i%d <= tsv(tokens@).len()); assert(tsv(tokens@).len() == tokens@.len()); '
             'assert(tokens@.len() == tokens.len()); assert(tokens.len() <= usize::MAX); assert(*i + __i%d <= usize::MAX);'
             % (old, inner, old, b, outer, old, old, b, outer, inner, inner, old, inner, inner),
         'loop-%d-exit' % inner:
-            'lemma_splice_done(%s, %s, __i%d + 1, tsv(tokens@));' % (old, b, outer),
+            'lemma_splice_done(%s, %s, __i%d + 1, tsv(tokens@), GFLAG);' % (old, b, outer),
     }
-    return {k: v.replace('ITEMS', items) for k, v in _h.items()}
+    return {k: v.replace('ITEMS', items).replace('GFLAG', g) for k, v in _h.items()}
 
 
 expand_brace = Fn(S, 'expand_brace',
@@ -268,7 +277,7 @@ expand_brace = Fn(S, 'expand_brace',
     loop_kinds={1: 'value'},
     ensures=[
         ('C12+C13+C01.brace.result_is_splice',
-         'exists|b: BV| buff_ok(b, old(tokens)@.len() as int) && tsv(final(tokens)@) == spliced(tsv(old(tokens)@), b) '
+         'exists|b: BV| buff_ok(b, old(tokens)@.len() as int) && tsv(final(tokens)@) == spliced(tsv(old(tokens)@), b, false) '
          '&& (forall|m: int| 0 <= m < b.len() ==> unq(old(tokens)@[(#[trigger] b[m]).0]) && spec_need_expand_brace(old(tokens)@[b[m].0].1@)) '
          '&& (forall|k: int| 0 <= k < old(tokens)@.len() && unq(old(tokens)@[k]) && spec_need_expand_brace(old(tokens)@[k].1@) ==> in_buff(b, k))'),
     ],
@@ -291,12 +300,12 @@ expand_brace = Fn(S, 'expand_brace',
 )
 
 
-def splice_ensures(name, extra_entry, match_pred):
-    return (name,
-         'exists|b: BV| buff_ok(b, old(tokens)@.len() as int) && tsv(final(tokens)@) == spliced(tsv(old(tokens)@), b) '
+def splice_ensures(name, extra_entry, match_pred, g='false'):
+    return (name, (
+         'exists|b: BV| buff_ok(b, old(tokens)@.len() as int) && tsv(final(tokens)@) == spliced(tsv(old(tokens)@), b, GFLAG) '
          '&& (forall|m: int| 0 <= m < b.len() ==> unq(old(tokens)@[(#[trigger] b[m]).0]) && %s(old(tokens)@[b[m].0].1@) && %s) '
          '&& (forall|k: int| 0 <= k < old(tokens)@.len() && unq(old(tokens)@[k]) && %s(old(tokens)@[k].1@) ==> in_buff(b, k))'
-         % (match_pred, extra_entry, match_pred))
+         % (match_pred, extra_entry, match_pred)).replace('GFLAG', g))
 
 
 def first_loop_inv(prefix, extra_entry, match_pred):
@@ -322,7 +331,7 @@ expand_glob = Fn(S, 'expand_glob',
     ensures=[
         ('C12+C13+C01.glob.result_is_splice_or_unchanged',
          '(tsv(final(tokens)@) == tsv(old(tokens)@)) || ' +
-         splice_ensures('', 'b[m].1.len() > 0', 'spec_needs_globbing')[1]),
+         splice_ensures('', 'b[m].1.len() > 0', 'spec_needs_globbing', g='true')[1]),
     ],
     loops={
         0: Loop(invariant=first_loop_inv('glob', 'bview(buff@)[m].1.len() > 0', 'spec_needs_globbing')),
@@ -331,9 +340,9 @@ expand_glob = Fn(S, 'expand_glob',
             ('C12.inv.glob.only_visible', 'forall|q: int| 0 <= q < result@.len() ==> from_entries((#[trigger] result@[q])@, __v1@, __i1 as int, show_hidden)'),
             ('C12.inv.glob.all_visible', 'forall|e: int| 0 <= e < __i1 && #[trigger] visible_at(__v1@, e, show_hidden) ==> has_word(result@, entry_path(__v1@[e]))'),
         ]),
-        **splice_loops(0, 2, 3, items='result'),
+        **splice_loops(0, 2, 3, items='result', g='true'),
     },
-    hints={**splice_hints(2, 3, items='result'), 'loop-0-body-entry': 'lemma_bview_push(buff@); lemma_found_push(buff@);',
+    hints={**splice_hints(2, 3, items='result', g='true'), 'loop-0-body-entry': 'lemma_bview_push(buff@); lemma_found_push(buff@);',
            'loop-1-body-entry': 'lemma_glob_step(result@, __v1@, __i1 as int, show_hidden);'},
 )
 
@@ -346,6 +355,10 @@ RANGE_RW = TYRW + [
     Rw(r'caps\[(\d)\]\.to_string\(\)\.parse::<i32>\(\)', r'vx_parse_i32(&caps.c\1)', regex=True, rule='R6',
        why='capture group text parsed with str::parse::<i32> (Ok iff a decimal in range: std contract, uninterpreted value)'),
     Rw('caps.get(4).is_none()', 'caps.c4.is_none()', rule='R6'),
+    Rw('token[..caps.get(0).unwrap().start()].to_string()', 'vx_s(&caps.head)', rule='R6',
+       why='the word text before the matched group (str slice up to Match::start) through the captures shim'),
+    Rw('token[caps.get(0).unwrap().end()..].to_string()', 'vx_s(&caps.tail)', rule='R6',
+       why='the word text after the matched group (str slice from Match::end) through the captures shim'),
     Rw('vx_parse_i32(&caps.c4)', 'vx_parse_i32(caps.c4.as_ref().unwrap())', required=False, rule='R6'),
 ]
 expand_brace_range = Fn(S, 'expand_brace_range', pre_rewrites=[], rewrites=[], int_args=('n',), props=('C12',),
@@ -360,12 +373,12 @@ expand_brace_range = Fn(S, 'expand_brace_range', pre_rewrites=[], rewrites=[], i
         1: Loop(invariant=[
             ('C12.inv.range.desc_bounds', 'incr >= 1 && start > end && n <= start && -0x8000_0000 <= end && start <= 0x7fff_ffff && incr <= 0x7fff_ffff'),
             ('C12.inv.range.desc_seq', 'n as int == start as int - result@.len() * incr as int && '
-                                       'forall|k: int| 0 <= k < result@.len() ==> (#[trigger] result@[k])@ == spec_int_str(start as int - k * incr as int)'),
+                                       'forall|k: int| 0 <= k < result@.len() ==> (#[trigger] result@[k])@ == head@ + spec_int_str(start as int - k * incr as int) + tail@'),
         ], decreases='n as int - end as int + incr as int'),
         2: Loop(invariant=[
             ('C12.inv.range.asc_bounds', 'incr >= 1 && start <= end && n >= start && -0x8000_0000 <= start && end <= 0x7fff_ffff && incr <= 0x7fff_ffff'),
             ('C12.inv.range.asc_seq', 'n as int == start as int + result@.len() * incr as int && '
-                                      'forall|k: int| 0 <= k < result@.len() ==> (#[trigger] result@[k])@ == spec_int_str(start as int + k * incr as int)'),
+                                      'forall|k: int| 0 <= k < result@.len() ==> (#[trigger] result@[k])@ == head@ + spec_int_str(start as int + k * incr as int) + tail@'),
         ], decreases='end as int - n as int + incr as int'),
         **splice_loops(0, 3, 4),
     },
@@ -396,5 +409,5 @@ brace_getgroup = Fn(S, 'brace_getgroup', ret='r', rewrites=BRACE_RW,
     loops={0: Loop(invariant=[('C05.inv.brace.group', 'ss@.len() <= s@.len() && 1 <= depth && depth as int + s@.len() < 0x7fff_ffff')], decreases='ss@.len()')},
 )
 
-UNIT = Unit('U-EXP1', TEMPLATE, fns=[brace_getitem, brace_getgroup, expand_brace, expand_glob, expand_brace_range], props=('C12', 'C13', 'C01', 'C05'))
+UNIT = Unit('U-EXP1', TEMPLATE, fns=[common.has_operator_fn(), brace_getitem, brace_getgroup, expand_brace, expand_glob, expand_brace_range], props=('C12', 'C13', 'C01', 'C05'))
 TRUSTED = common.TRUSTED_STR + common.TRUSTED_TOKEN + []
